@@ -4,6 +4,7 @@ import (
 	"encoding/binary"
 	"encoding/json"
 	"fmt"
+	"github.com/netflix/rend/verifshim/vsync"
 	"runtime/debug"
 	"runtime/metrics"
 	"strconv"
@@ -20,6 +21,9 @@ func init() {
 			return "bad scenario: " + err.Error()
 		}
 		o := RunBadInput(sc)
+		if dp := vsync.TakeDoublePuts(); len(dp) > 0 {
+			return "VIOLATION reproduced: pooled-object-put-twice: " + dp[0]
+		}
 		s := fmt.Sprintf("proto=%s input=%q keepOpen=%v\n -> replied=%dB closed=%v waiting=%v alloc=%d bound=%d spun=%v panic=%v\n", sc.Proto, sc.Bytes, sc.KeepOpen, o.Replied, o.Closed, o.Waiting, o.Alloc, o.Bound, o.Spun, o.Panic)
 		if cl, d := o.verdict(sc); cl != "" {
 			return "VIOLATION reproduced: " + cl + ": " + d + "\n" + s
@@ -176,6 +180,11 @@ func runC11(c *rt.Ctx) {
 	try := func(sc BadInput) {
 		c.Crumb("tag="+sc.Tag, sc)
 		o := RunBadInput(sc)
+		if dp := vsync.TakeDoublePuts(); len(dp) > 0 {
+			sig := fmt.Sprintf("C11 pooled-object-put-twice proto=%s %s", sc.Proto, sc.Tag)
+			sigCount[sig]++
+			c.Violation(sig, fmt.Sprintf("input %q keepOpen=%v: handling this input returned a pooled object to its pool twice, so two later requests (of other, well-behaved connections) will be handed the same object: %s", trunc(sc.Bytes, 80), sc.KeepOpen, dp[0]), sc)
+		}
 		if o.Skipped {
 			c.Add("n_skipped_large_consistent", 1)
 			return
